@@ -104,6 +104,10 @@ def convert(raw: list[dict[str, Any]], plurals: set[str]) -> list[dict[str, Any]
             out.append({'ev': 'seen', 'o': e['name'], 'rv': e['rv'] or 0, 'gone': e.get('type') == 'DELETED'})
         elif ev == 'env.fatal':
             out.append({'ev': 'fatal', 'key': 'things|*'})
+        elif ev == 'env.check':
+            out.append({'ev': 'check', 'served': e['served'], 'watched': e['watched'], 'settled': False})
+        elif ev == 'srv.req' and e.get('plural') in plurals and e.get('kind') in ('list', 'watch') and e.get('code') == 404:
+            out.append({'ev': 'notfound', 'key': f'{e["plural"]}|{e.get("ns") or "*"}'})
     return out
 
 
@@ -130,7 +134,7 @@ def run_coverage(sc: dict[str, Any]) -> dict[str, Any]:
         def check():
             served = sorted(f'{r}|{ns}' for r in present_res for ns in present_ns if ns.startswith('ns'))
             watched = sorted(f'{w.res.plural}|{w.ns or "*"}' for w in sim.srv.watches if w.res.plural in (PLURAL, 'widgets'))
-            events.append({'ev': 'check', 'served': served, 'watched': watched, 'settled': False})
+            sim.rec('env.check', served=served, watched=watched)
 
         def do(opn, *a):
             if opn == 'nsadd' and a[0] not in present_ns:
@@ -161,6 +165,7 @@ def run_coverage(sc: dict[str, Any]) -> dict[str, Any]:
             op.finish()
         except Stall:
             stall = True
+        events = [e for e in convert(sim.recorder.events, {PLURAL, 'widgets'}) if e['ev'] in ('check', 'notfound', 'open', 'list')]
         return {'id': sc['id'], 'events': events, 'stall': stall, 'scenario': sc}
     finally:
         sim.close()
@@ -247,5 +252,5 @@ def run(ctx, rep) -> None:
         if t['stall']:
             rep.violation(f'{t["id"]}: event loop stalled', payload=t)
         elif v != 'ok':
-            rep.classified(v if v == 'F15' else '', f'{t["id"]}: {v}', payload=t)
+            rep.classified(v if v in ('F15', 'F25') else '', f'{t["id"]}: {v}', payload=t)
     rep.sample({'scenario': traces[0]['scenario'], 'events_head': traces[0]['events'][:12]}); rep.sample(traces[-1]['events'][-3:])
